@@ -134,6 +134,70 @@ W_CALLS = {"call": 40, "reply": 18, "close": 5, "connect": 4, "hello": 4, "reque
 W_NAMES = {"request": 40, "release": 14, "close": 6, "connect": 5, "hello": 5, "query": 6, "call": 3}
 
 
+def burst_case(maxinc=3, nclients=8):
+    """max_incomplete_connections when many clients arrive between two turns of the main loop: the daemon is held (SIGSTOP) while they
+    connect and start to authenticate, and continued; it may serve `maxinc` of them, the others wait in the listen queue until one leaves"""
+    import signal as _sig, time
+    from .. import bus
+    from .c10 import Pre
+    d = bus.Daemon(limits={"max_incomplete_connections": maxinc, "auth_timeout": 120000})
+    cl = []
+    try:
+        warm = Pre(d.path); warm.poll(0.2); warm.s.close(); time.sleep(0.05)        # (the first accept has happened: everything is set up)
+        os.kill(d.proc.pid, _sig.SIGSTOP)
+        try:
+            cl = [Pre(d.path) for _ in range(nclients)]
+        finally:
+            os.kill(d.proc.pid, _sig.SIGCONT)
+        for _ in range(60):           # (up to a few seconds on a busy machine; more than the limit is wrong at any moment)
+            for c in cl: c.poll(0.02)
+            if len([c for c in cl if c.accepted() and not c.eof]) >= min(maxinc, nclients):
+                break
+        for c in cl: c.poll(0.05)
+        served = [i for i, c in enumerate(cl) if c.accepted() and not c.eof]
+        alive1 = d.alive()
+        after = None
+        if alive1 and served:
+            cl[served[0]].s.close()
+            for _ in range(6):
+                for i, c in enumerate(cl):
+                    if i != served[0]: c.poll(0.05)
+            after = [i for i, c in enumerate(cl) if i != served[0] and c.accepted() and not c.eof]
+        return {"max": maxinc, "clients": nclients, "served_at_once": len(served), "alive": d.alive(), "served_after_one_left": None if after is None else len(after),
+                "stderr": "" if d.alive() else d.stderr()[-600:]}
+    finally:
+        for c in cl:
+            try: c.s.close()
+            except OSError: pass
+        d.stop()
+
+
+def run_burst(ctx):
+    res = []
+    for maxinc, n in ((3, 8), (1, 5), (5, 5)):
+        try:
+            res.append(burst_case(maxinc, n))
+        except (OSError, InfraError) as e:
+            res.append({"infra": repr(e)})
+    good = [r for r in res if "infra" not in r]
+    if len(good) < 2:
+        raise InfraError("burst scenarios failed: %s" % res)
+    ok = True
+    for r in good:
+        want = min(r["max"], r["clients"])
+        if not r["alive"] or r["served_at_once"] > r["max"] or (r["served_after_one_left"] is not None and r["served_after_one_left"] > r["max"]):
+            ok = False
+            ctx.violate("max_incomplete_connections=%d: %d clients arrived between two turns of the main loop and %d were served at once (daemon alive: %s) %s" %
+                        (r["max"], r["clients"], r["served_at_once"], r["alive"], r["stderr"][-200:]), {"kind": "burst", "case": [r["max"], r["clients"]], "observed": r}, True)
+        elif r["served_at_once"] != want:
+            ok = False
+            ctx.violate("max_incomplete_connections=%d: of %d clients that arrived together only %d are served" % (r["max"], r["clients"], r["served_at_once"]),
+                        {"kind": "burst", "case": [r["max"], r["clients"]], "observed": r}, True)
+    ctx.oblige("scenario: clients arriving in a burst (daemon held, continued): never more than max_incomplete_connections served at once (%s)" %
+               ", ".join("%d of %d, limit %d" % (r["served_at_once"], r["clients"], r["max"]) for r in good), "correspondence", ok)
+    ctx.coverage.setdefault("distribution", {})["burst"] = res
+
+
 def run(ctx):
     check.lean_obligations(ctx, MODULE, THEOREMS)
     n = 40 if ctx.quick() else 800
@@ -147,9 +211,15 @@ def run(ctx):
             ("replies-limit", {"replies": 2}, {"weights": W_CALLS, "max_conns": 4}, busdiff.SESSION, 14),
             ("message-size", {"maxmsg": 1024}, {"max_conns": 4, "big": (1024, 0.35)}, busdiff.SESSION, 15)]:
         buscheck.run_histories(ctx, n, L, make_oracle(lim), gen_kw=kw, policy=pol, limits=lim, seed_salt=salt, label=label)
+    run_burst(ctx)
 
 
 def replay(path):
     import json
+    rp = json.load(open(path))["replay"]
+    if rp.get("kind") == "burst":
+        r = burst_case(*rp["case"])
+        print("replay C13: %s" % r)
+        return 1 if (not r["alive"] or r["served_at_once"] != min(r["max"], r["clients"])) else 0
     lim = json.load(open(path))["replay"].get("limits") or {}
     return buscheck.replay_history(path, make_oracle(lim), "C13")
